@@ -451,7 +451,34 @@ func genStore(r *rand.Rand, emit func(core.Case), n int, thorough bool) {
 		skew := r.Intn(2) == 0
 		l, members := initialSet(r, pool, skew)
 		ops := []string{fmt.Sprintf("genesis ih=%d v=%s", ih, fmtBatch(l))}
+		if r.Intn(3) == 0 {
+			// the node's real handshake; the application's InitChain may return its own validators
+			gl := l
+			if r.Intn(3) == 0 {
+				gl = nil // SDK style: no validators in the genesis file
+			}
+			var iv []pv
+			if r.Intn(4) != 0 || gl == nil {
+				iv, members = initialSet(r, pool, skew)
+				switch r.Intn(14) {
+				case 0:
+					iv = append(iv, iv[0])
+				case 1:
+					iv[0].power = 0
+				case 2:
+					iv[0].power = -3
+				case 3:
+					iv = nil
+				}
+			}
+			ops[0] = fmt.Sprintf("handshake ih=%d v=%s iv=%s cp=%d", ih, fmtBatch(gl), fmtBatch(iv), r.Intn(2))
+			batchHist["handshake"]++
+		}
 		blocks := 6 + r.Intn(30)
+		bootAt := -1
+		if r.Intn(6) == 0 {
+			bootAt = 1 + r.Intn(blocks)
+		}
 		h := ih // height of the next block
 		pUpd := 1 + r.Intn(8)
 		for b := 0; b < blocks; b++ {
@@ -473,6 +500,10 @@ func genStore(r *rand.Rand, emit func(core.Case), n int, thorough bool) {
 			ops = append(ops, "block ch="+fmtBatch(batch))
 			applyHint(members, batch)
 			h++
+			if b == bootAt {
+				ops = append(ops, "bootstrap", fmt.Sprintf("load h=%d", h-1), fmt.Sprintf("load h=%d", h), fmt.Sprintf("load h=%d", h+1))
+				batchHist["bootstrap"]++
+			}
 			if r.Intn(12) == 0 {
 				ops = append(ops, fmt.Sprintf("load h=%d", h+int64(r.Intn(3))))
 			}
@@ -524,6 +555,8 @@ func genGlue(r *rand.Rand, emit func(core.Case), n int) {
 		"genesis ih=0 v=" + a + ":1", "genesis ih=1 v=-", "genesis ih=1 v=" + a + ":0", "genesis ih=1 v=" + a + ":-1", "genesis ih=3 v=" + a + ":5",
 		"genesis ih=1 v=" + a + ":5," + a + ":6", "load h=x", "load h=-1", "load h=0", "load h=3", "load h=4", "load h=9223372036854775807",
 		"prune from=0 to=5", "prune from=5 to=5", "prune from=3 to=4", "prune from=1 to=900000", "prune from=3 to=5", "info from=-2 n=65", "info from=0 n=8",
+		"bootstrap", "bootstrap x=1", "handshake ih=2 v=- iv=-", "handshake ih=2 v=- iv=" + a + ":4 cp=1", "handshake ih=1 v=" + a + ":3 iv=- cp=0",
+		"handshake ih=1 v=" + a + ":3 iv=" + a + ":0", "handshake ih=0 v=- iv=" + a + ":1", "handshake ih=3 v=" + a + ":3",
 		"frobnicate", "block ch=" + a + ":0", "block ch=" + a + ":7", "block",
 	}
 	for c := 0; c < n; c++ {
